@@ -2,12 +2,6 @@
 From Verif Require Import Common.Base C03.Model.
 
 (* ---- counting ------------------------------------------------------------------------------ *)
-Fixpoint sumf {A} (g : A -> nat) (l : list A) : nat :=
-  match l with [] => 0 | x :: r => g x + sumf g r end.
-
-Definition one (i j : id) : nat := if Nat.eqb j i then 1 else 0.
-Definition cnt (i : id) (l : list id) : nat := sumf (one i) l.
-
 Lemma sumf_app {A} (g : A -> nat) l1 l2 : sumf g (l1 ++ l2) = sumf g l1 + sumf g l2.
 Proof. induction l1; simpl; lia. Qed.
 
@@ -34,6 +28,12 @@ Proof.
   rewrite (IH k x H). reflexivity.
 Qed.
 
+Lemma length_upd_nth {A} (l : list A) k f : length (upd_nth k f l) = length l.
+Proof. revert k. induction l as [|a l IH]; intros [|k]; simpl; auto. Qed.
+
+Lemma sumf_repeat {A} (g : A -> nat) x m : sumf g (repeat x m) = m * g x.
+Proof. induction m; simpl; lia. Qed.
+
 Lemma cnt_app i l1 l2 : cnt i (l1 ++ l2) = cnt i l1 + cnt i l2.
 Proof. apply sumf_app. Qed.
 
@@ -46,16 +46,47 @@ Proof.
     + apply Nat.eqb_neq in E. rewrite IH. split; [intros [?|?]; [congruence|lia]|intros; right; lia].
 Qed.
 
+Lemma mem_in i l : mem i l = true <-> In i l.
+Proof.
+  unfold mem. rewrite existsb_exists. split.
+  - intros (x & Hx & E). apply Nat.eqb_eq in E. subst. assumption.
+  - intros H. exists i. split; [assumption|apply Nat.eqb_refl].
+Qed.
+
 Lemma mem_cnt i l : mem i l = false -> cnt i l = 0.
 Proof.
   intros H. destruct (cnt i l) eqn:E; auto.
-  assert (In i l) by (apply cnt_in; lia).
-  unfold mem in H. assert (existsb (Nat.eqb i) l = true) by (apply existsb_exists; exists i; split; auto; apply Nat.eqb_refl).
-  congruence.
+  assert (In i l) by (apply cnt_in; lia). apply mem_in in H0. congruence.
+Qed.
+
+Lemma one_refl i : one i i = 1.
+Proof. unfold one. rewrite Nat.eqb_refl. reflexivity. Qed.
+Lemma one_neq i a : Nat.eqb a i = false -> one i a = 0.
+Proof. unfold one. intros ->. reflexivity. Qed.
+
+Lemma cnt_dedup i l : cnt i (dedup l) = Nat.min 1 (cnt i l).
+Proof.
+  induction l as [|a l IH]; cbn [dedup]; [reflexivity|].
+  destruct (mem a l) eqn:M.
+  - rewrite IH. destruct (Nat.eqb a i) eqn:E.
+    + apply Nat.eqb_eq in E. subst. apply mem_in in M. apply cnt_in in M.
+      unfold cnt in *. cbn [sumf]. rewrite one_refl. lia.
+    + unfold cnt in *. cbn [sumf]. rewrite (one_neq _ _ E). reflexivity.
+  - destruct (Nat.eqb a i) eqn:E.
+    + apply Nat.eqb_eq in E. subst. pose proof (mem_cnt _ _ M) as Z.
+      unfold cnt in *. cbn [sumf]. rewrite one_refl, IH, Z. reflexivity.
+    + unfold cnt in *. cbn [sumf]. rewrite (one_neq _ _ E), IH. reflexivity.
+Qed.
+
+Lemma cnt_filter i P l : cnt i (filter P l) = if P i then cnt i l else 0.
+Proof.
+  induction l as [|a l IH]; simpl; [destruct (P i); reflexivity|].
+  destruct (P a) eqn:Pa; unfold cnt in *; cbn [sumf]; rewrite IH; unfold one;
+    destruct (Nat.eqb a i) eqn:E; try (apply Nat.eqb_eq in E; subst; rewrite Pa); destruct (P i); lia.
 Qed.
 
 Definition fin1 (i : id) (p : id * result) : nat := one i (fst p).
-Lemma sumf_fin_map i r ids : sumf (fin1 i) (map (fun j => (j, r)) ids) = cnt i ids.
+Lemma sumf_fin_map i (v : id -> result) ids : sumf (fin1 i) (map (fun j => (j, v j)) ids) = cnt i ids.
 Proof. unfold cnt. induction ids; simpl; auto. Qed.
 
 (* ---- measures -------------------------------------------------------------------------------- *)
@@ -63,17 +94,13 @@ Definition started (st : send_st) : bool := match st with SReady => false | _ =>
 Definition incall (st : send_st) : bool := match st with SInCall => true | _ => false end.
 Definition backoff (st : send_st) : bool := match st with SBackoff => true | _ => false end.
 
-Definition wall (i : id) (w : work) : nat := cnt i (w_ids w).
 Definition wstarted (i : id) (w : work) : nat := if started (w_st w) then cnt i (w_ids w) else 0.
 Definition wincall (i : id) (w : work) : nat := if incall (w_st w) then cnt i (w_ids w) else 0.
 Definition wback (w : work) : nat := if backoff (w_st w) then 1 else 0.
 Definition wbacki (i : id) (w : work) : nat := if backoff (w_st w) then cnt i (w_ids w) else 0.
-Definition wcons (w : work) : nat := if w_cons w then 1 else 0.
-Definition wfly (w : work) : nat := if w_cons w then 0 else 1.
-Definition wlen (w : work) : nat := length (w_ids w).
-
-Definition tmb (s : state) : list id := match timer s with TFlush b => b | _ => [] end.
-Definition pcb (s : state) : list id := match pc s with PFlushWait b => b | _ => [] end.
+Definition wcons (w : work) : nat := match w_own w with OCons => 1 | _ => 0 end.
+Definition wfly (w : work) : nat := match w_own w with OFly => 1 | _ => 0 end.
+Definition wcaller (w : work) : nat := match w_own w with OCaller => 1 | _ => 0 end.
 
 Definition ge_qstopped (p : pc_t) : bool :=
   match p with PNot | PCalled | PStopClosed => false | _ => true end.
@@ -84,59 +111,59 @@ Definition ge_flushwait (p : pc_t) : bool :=
 Definition ge_flushjoined (p : pc_t) : bool :=
   match p with PFlushJoined | PInner | PReturned => true | _ => false end.
 
-(* where is id i?  (everything except the queue and the finished list is "in flight") *)
-Definition inflight (i : id) (s : state) : nat :=
-  cnt i (holding s) + cnt i (current s) + sumf (cnt i) (cflush s) + cnt i (tmb s) + cnt i (pcb s)
-  + sumf (wall i) (works s).
-
-Definition inflight_len (s : state) : nat :=
-  length (holding s) + length (current s) + sumf (@length id) (cflush s) + length (tmb s) + length (pcb s)
-  + sumf wlen (works s).
-
 Record Inv (c : cfg) (s : state) : Prop := mkInv {
-  i_cons : forall i, cnt i (queue s) + inflight i s + sumf (fin1 i) (finished s) = cnt i (accepted s);
+  (* every accepted request is in exactly one place: queued, held by a consumer, split into >= 1 outstanding
+     parts, or finished *)
+  i_cons : forall i, cnt i (queue s) + cnt i (holding s) + Nat.min 1 (parts_out i s) + sumf (fin1 i) (finished s)
+                     = cnt i (accepted s);
   i_nodup : forall i, cnt i (accepted s) <= 1;
   i_taken : forall i, cnt i (queue s) + cnt i (taken s) = cnt i (accepted s);
-  i_begun_ge : forall i, sumf (fin1 i) (finished s) + sumf (wstarted i) (works s) <= cnt i (begun s);
+  (* every part ever created has reported or is outstanding *)
+  i_parts : forall i, sumf (fin1 i) (partlog s) + parts_out i s = cnt i (nparts s);
+  i_fin_done : forall i, sumf (fin1 i) (finished s) <= sumf (fin1 i) (partlog s);
+  i_begun_ge : forall i, sumf (fin1 i) (partlog s) + sumf (wstarted i) (works s) <= cnt i (begun s);
   i_begun_eq : failures s = 0 ->
-               forall i, sumf (fin1 i) (finished s) + sumf (wstarted i) (works s) = cnt i (begun s);
+               forall i, sumf (fin1 i) (partlog s) + sumf (wstarted i) (works s) = cnt i (begun s);
   i_noback : failures s = 0 -> sumf wback (works s) = 0;
   i_failed_nil : failures s = 0 -> failedids s = [];
   i_begun_eq1 : forall i, cnt i (failedids s) = 0 ->
-                sumf (fin1 i) (finished s) + sumf (wstarted i) (works s) = cnt i (begun s);
+                sumf (fin1 i) (partlog s) + sumf (wstarted i) (works s) = cnt i (begun s);
   i_noback1 : forall i, cnt i (failedids s) = 0 -> sumf (wbacki i) (works s) = 0;
   i_ended : forall i, cnt i (ended s) + sumf (wincall i) (works s) = cnt i (begun s);
-  i_consumers : idle s + exited s + length (holding s) + length (cflush s) + sumf wcons (works s) = c_ncons c;
+  i_consumers : idle s + exited s + length (holding s) + length (cflush s) + sumf wcons (works s) = ncons_eff c;
   i_workers : workers s + sumf wfly (works s) = c_nwork c;
+  i_nocaller : c_queue c = true -> sumf wcaller (works s) = 0;
+  i_noqueue : c_queue c = false ->
+              queue s = [] /\ holding s = [] /\ current s = [] /\ cflush s = [] /\ timer s = TNone /\ idle s = 0 /\
+              sumf wcons (works s) = 0 /\ sumf wfly (works s) = 0 /\ qstop s = false /\
+              match pc s with PQStopped | PJoined | PFlushWait _ | PFlushed => False | _ => True end;
   i_nobatch : c_batch c = false ->
               holding s = [] /\ current s = [] /\ cflush s = [] /\ timer s = TNone /\ sumf wfly (works s) = 0 /\
               match pc s with PFlushWait _ => False | _ => True end;
-  i_joined : ge_joined (pc s) = true -> exited s = c_ncons c;
+  i_joined : ge_joined (pc s) = true -> exited s = ncons_eff c;
   i_flushwait : ge_flushwait (pc s) = true -> current s = [];
-  i_bclosed : bclosed s = ge_flushwait (pc s);
-  i_flushjoined : ge_flushjoined (pc s) = true -> works s = [] /\ timer_dead (timer s) = true;
-  i_qstop : qstop s = ge_qstopped (pc s);
+  i_bclosed : bclosed s = (c_queue c && ge_flushwait (pc s));
+  i_flushjoined : ge_flushjoined (pc s) = true ->
+                  sumf wcons (works s) + sumf wfly (works s) = 0 /\ timer_dead (timer s) = true;
+  i_qstop : qstop s = (c_queue c && ge_qstopped (pc s));
   i_exited : 1 <= exited s -> qstop s = true;
   i_late : c_persist c = false -> 1 <= exited s -> forall i, cnt i (queue s) <= cnt i (late s);
   i_prelate : forall i, cnt i (accpre s) + cnt i (late s) <= cnt i (accepted s);
   i_postb : postb s = 0;
-  i_store : c_persist c = true -> forall i, 1 <= cnt i (accepted s) ->
+  i_store : c_persist c = true -> c_queue c = true -> forall i, 1 <= cnt i (accepted s) ->
             In i (store s) \/ exists r, In (i, r) (finished s) /\ r <> RShutdown;
-  i_refs : c_persist c = true -> refs s = (if qstop s then 0 else 1) + inflight_len s;
+  i_refs : c_persist c = true -> c_queue c = true ->
+           refs s + length (finished s) = (if qstop s then 0 else 1) + length (taken s);
   i_closed : closed s = (c_persist c && Nat.eqb (refs s) 0);
 }.
 
 (* ---- preservation ---------------------------------------------------------------------------- *)
-Ltac unf := unfold new_work, set_queue, set_qstop, set_store, set_refs, set_closed, set_idle, set_exited,
-  set_holding, set_cflush, set_current, set_workers, set_works, set_timer, set_bclosed, set_rstop, set_pc,
-  set_accepted, set_accpre, set_late, set_taken, set_begun, set_ended, set_finished, set_failures, set_postb, set_failedids, set_shuterr in *.
+Ltac unf := unfold new_work, set_queue, set_qstop, set_store, set_refs, set_closed, set_idle, set_exited, set_holding, set_cflush, set_current, set_workers, set_works, set_timer, set_bclosed, set_rstop, set_pc, set_accepted, set_accpre, set_late, set_taken, set_begun, set_ended, set_finished, set_failures, set_postb, set_failedids, set_shuterr, set_partlog, set_nparts in *.
 
 Ltac destr_step H :=
   repeat (match type of H with
           | context[match ?x with _ => _ end] => destruct x eqn:?
           end; try discriminate H).
-
-Ltac spec i := repeat match goal with Hq : forall j : id, _ |- _ => specialize (Hq i) end.
 
 Ltac splits :=
   repeat match goal with
@@ -147,43 +174,56 @@ Ltac splits :=
       revert Hn
   end; intros.
 
-Ltac unm := unfold inflight, inflight_len, tmb, pcb, cnt, wall, wstarted, wincall, wback, wbacki, wcons, wfly, wlen, fin1,
-  set_st, end_state, started, incall, backoff in *.
-
 Ltac ifs := repeat match goal with
   | |- context[if ?b then _ else _] => destruct b eqn:?
   | Hx : context[if ?b then _ else _] |- _ => destruct b eqn:?
+  end.
+
+Ltac eqbs := repeat match goal with
+  | Hb : (_ =? _) = true |- _ => apply Nat.eqb_eq in Hb
+  | Hb : (_ =? _) = false |- _ => apply Nat.eqb_neq in Hb
   end.
 
 Ltac rw_eqs := repeat match goal with
   | E : ?f ?x = _ |- _ => is_var x; progress (rewrite E in * )
   end.
 
-Ltac unm2 := unfold inflight, inflight_len, tmb, pcb, wall, wstarted, wincall, wback, wbacki, wcons, wfly, wlen, fin1,
-  set_st, end_state, started, incall, backoff in *; unfold cnt in *.
+Ltac unm2 := unfold parts_out, tmb, pcb, wstarted, wincall, wback, wbacki, wcons, wfly, wcaller, fin1,
+  set_st, end_state, started, incall, backoff, is_fly, is_caller in *; unfold cnt in *.
 
-Ltac proj := cbn [queue qstop store refs closed idle exited holding cflush current workers works timer bclosed rstop pc accepted accpre late taken begun ended finished failures postb failedids shuterr set_queue set_qstop set_store set_refs set_closed set_idle set_exited set_holding set_cflush set_current set_workers set_works set_timer set_bclosed set_rstop set_pc set_accepted set_accpre set_late set_taken set_begun set_ended set_finished set_failures set_postb set_failedids set_shuterr new_work] in *.
+Ltac proj := cbn [queue qstop store refs closed idle exited holding cflush current workers works timer bclosed rstop pc accepted accpre late taken begun ended finished failures postb failedids shuterr partlog nparts set_queue set_qstop set_store set_refs set_closed set_idle set_exited set_holding set_cflush set_current set_workers set_works set_timer set_bclosed set_rstop set_pc set_accepted set_accpre set_late set_taken set_begun set_ended set_finished set_failures set_postb set_failedids set_shuterr set_partlog set_nparts new_work] in *.
+
+Ltac bools := repeat match goal with
+  | Hb : (_ || _) = false |- _ => apply orb_false_elim in Hb as [? ?]
+  end.
+Ltac memz := repeat match goal with
+  | Hm : mem _ _ = false |- _ => apply mem_cnt in Hm
+  end.
+Ltac idsubst := repeat match goal with
+  | E : ?a = ?b |- _ => is_var a; is_var b; subst a
+  end.
+
 Ltac arith :=
-  rewrite ?sumf_app, ?sumf_fin_map in *; unm2; proj; rw_eqs; cbn [sumf length] in *; splits;
-  do 3 (rewrite ?sumf_app, ?app_length in *; cbn [sumf length w_ids w_st w_cons fst snd] in * ); rw_eqs;
-  cbn [sumf length w_ids w_st w_cons fst snd] in *;
-  try lia; unfold one in *; ifs; try lia; try congruence.
+  bools; memz; rewrite ?sumf_app, ?sumf_fin_map, ?cnt_filter, ?cnt_dedup in *; unm2; proj; rw_eqs; rewrite ?length_upd_nth in *; cbn [sumf length] in *; splits;
+  do 3 (rewrite ?sumf_app, ?app_length, ?sumf_repeat, ?repeat_length, ?length_upd_nth in *;
+        cbn [sumf length w_ids w_st w_own fst snd] in * ); rw_eqs;
+  cbn [sumf length w_ids w_st w_own fst snd] in *;
+  try lia; unfold one in *; ifs; eqbs; idsubst; try lia; try congruence.
 
 Ltac start H l := destruct l; try (match goal with o : outcome |- _ => destruct o end); unfold step, is_ok, end_state in H; destr_step H; injection H as <-; proj.
 
 Lemma pres_cons c s l s' : Inv c s -> step c s l = Some s' ->
-  forall i, cnt i (queue s') + inflight i s' + sumf (fin1 i) (finished s') = cnt i (accepted s').
+  forall i, cnt i (queue s') + cnt i (holding s') + Nat.min 1 (parts_out i s') + sumf (fin1 i) (finished s')
+            = cnt i (accepted s').
 Proof.
-  intros I H i. pose proof (i_cons _ _ I i) as Hc. clear I.
-  start H l; arith.
+  intros I H i. pose proof (i_cons _ _ I) as Hc. pose proof (i_nodup _ _ I) as Hn. clear I.
+  start H l; try (pose proof (Hc i0); pose proof (Hn i0)); specialize (Hc i); specialize (Hn i); arith.
 Qed.
 
 Lemma pres_nodup c s l s' : Inv c s -> step c s l = Some s' -> forall i, cnt i (accepted s') <= 1.
 Proof.
   intros I H i. pose proof (i_nodup _ _ I i) as Hc. clear I.
-  start H l; try assumption.
-  all: match goal with Hb : (mem _ _ || _) = false |- _ => apply orb_false_elim in Hb as [Hm _]; apply mem_cnt in Hm end.
-  all: unfold cnt in *; cbn [sumf]; unfold one at 1; destruct (Nat.eqb i0 i) eqn:E; [apply Nat.eqb_eq in E; subst; lia | lia].
+  start H l; try assumption; arith.
 Qed.
 
 Lemma pres_taken c s l s' : Inv c s -> step c s l = Some s' ->
@@ -193,8 +233,22 @@ Proof.
   start H l; arith.
 Qed.
 
+Lemma pres_parts c s l s' : Inv c s -> step c s l = Some s' ->
+  forall i, sumf (fin1 i) (partlog s') + parts_out i s' = cnt i (nparts s').
+Proof.
+  intros I H i. pose proof (i_parts _ _ I i) as Hc. clear I.
+  start H l; arith.
+Qed.
+
+Lemma pres_fin_done c s l s' : Inv c s -> step c s l = Some s' ->
+  forall i, sumf (fin1 i) (finished s') <= sumf (fin1 i) (partlog s').
+Proof.
+  intros I H i. pose proof (i_fin_done _ _ I i) as Hc. clear I.
+  start H l; arith.
+Qed.
+
 Lemma pres_begun_ge c s l s' : Inv c s -> step c s l = Some s' ->
-  forall i, sumf (fin1 i) (finished s') + sumf (wstarted i) (works s') <= cnt i (begun s').
+  forall i, sumf (fin1 i) (partlog s') + sumf (wstarted i) (works s') <= cnt i (begun s').
 Proof.
   intros I H i. pose proof (i_begun_ge _ _ I i) as Hc. clear I.
   start H l; arith.
@@ -208,7 +262,7 @@ Proof.
 Qed.
 
 Lemma pres_begun_eq c s l s' : Inv c s -> step c s l = Some s' ->
-  failures s' = 0 -> forall i, sumf (fin1 i) (finished s') + sumf (wstarted i) (works s') = cnt i (begun s').
+  failures s' = 0 -> forall i, sumf (fin1 i) (partlog s') + sumf (wstarted i) (works s') = cnt i (begun s').
 Proof.
   intros I H. pose proof (i_begun_eq _ _ I) as Hc. pose proof (i_noback _ _ I) as Hb. clear I.
   start H l; intros F ii; try (specialize (Hc F ii); specialize (Hb F)); arith.
@@ -233,7 +287,7 @@ Qed.
 
 Lemma pres_begun_eq1 c s l s' : Inv c s -> step c s l = Some s' ->
   forall i, cnt i (failedids s') = 0 ->
-  sumf (fin1 i) (finished s') + sumf (wstarted i) (works s') = cnt i (begun s').
+  sumf (fin1 i) (partlog s') + sumf (wstarted i) (works s') = cnt i (begun s').
 Proof.
   intros I H. pose proof (i_begun_eq1 _ _ I) as Hc. pose proof (i_noback1 _ _ I) as Hb. clear I.
   start H l; intros ii F; prem Hc ii F s; try (specialize (Hb ii F0)); arith.
@@ -247,7 +301,7 @@ Proof.
 Qed.
 
 Lemma pres_consumers c s l s' : Inv c s -> step c s l = Some s' ->
-  idle s' + exited s' + length (holding s') + length (cflush s') + sumf wcons (works s') = c_ncons c.
+  idle s' + exited s' + length (holding s') + length (cflush s') + sumf wcons (works s') = ncons_eff c.
 Proof.
   intros I H. pose proof (i_consumers _ _ I) as Hc. clear I.
   start H l; arith.
@@ -260,22 +314,31 @@ Proof.
   start H l; arith.
 Qed.
 
+Lemma pres_nocaller c s l s' : Inv c s -> step c s l = Some s' -> c_queue c = true -> sumf wcaller (works s') = 0.
+Proof.
+  intros I H Q. pose proof (i_nocaller _ _ I Q) as Hc. clear I.
+  start H l; arith.
+Qed.
+
 Lemma len0 {A} (l : list A) : length l = 0 -> l = [].
 Proof. destruct l; simpl; [auto|lia]. Qed.
 
 Lemma nth_nil {A} k (x : A) : nth_error [] k = Some x -> False.
 Proof. destruct k; discriminate. Qed.
 
-Lemma pres_qstop c s l s' : Inv c s -> step c s l = Some s' -> qstop s' = ge_qstopped (pc s').
+Lemma pres_qstop c s l s' : Inv c s -> step c s l = Some s' -> qstop s' = (c_queue c && ge_qstopped (pc s')).
 Proof.
   intros I H. pose proof (i_qstop _ _ I) as Hc. clear I.
-  start H l; rw_eqs; try assumption; try reflexivity.
+  start H l; rw_eqs; cbn [negb andb orb ge_qstopped] in *; try assumption; try reflexivity; try discriminate.
+  all: try (destruct (c_queue c); cbn in *; try discriminate; try assumption; reflexivity).
 Qed.
 
-Lemma pres_bclosed c s l s' : Inv c s -> step c s l = Some s' -> bclosed s' = ge_flushwait (pc s').
+Lemma pres_bclosed c s l s' : Inv c s -> step c s l = Some s' -> bclosed s' = (c_queue c && ge_flushwait (pc s')).
 Proof.
-  intros I H. pose proof (i_bclosed _ _ I) as Hc. clear I.
-  start H l; rw_eqs; try assumption; try reflexivity.
+  intros I H. pose proof (i_bclosed _ _ I) as Hc. pose proof (i_noqueue _ _ I) as Hn. clear I.
+  start H l; rw_eqs; cbn [negb andb orb ge_flushwait] in *; try assumption; try reflexivity; try discriminate.
+  all: try (destruct (c_queue c); cbn in *; try discriminate; try assumption; try reflexivity;
+            destruct (Hn eq_refl) as (_ & _ & _ & _ & _ & _ & _ & _ & _ & X); rw_eqs; try contradiction; fail).
 Qed.
 
 Lemma pres_exited c s l s' : Inv c s -> step c s l = Some s' -> 1 <= exited s' -> qstop s' = true.
@@ -284,201 +347,3 @@ Proof.
   start H l; rw_eqs; try assumption; try reflexivity.
   all: try (apply andb_prop in Heqb as [? _]; congruence).
 Qed.
-
-Lemma pres_nobatch c s l s' : Inv c s -> step c s l = Some s' -> c_batch c = false ->
-  holding s' = [] /\ current s' = [] /\ cflush s' = [] /\ timer s' = TNone /\ sumf wfly (works s') = 0 /\
-  match pc s' with PFlushWait _ => False | _ => True end.
-Proof.
-  intros I H B. destruct (i_nobatch _ _ I B) as (H1 & H2 & H3 & H4 & H5 & H6). clear I.
-  start H l; proj; rw_eqs; cbn [nonempty] in *;
-    try (exfalso; eapply nth_nil; eassumption); try discriminate; try contradiction;
-    repeat split; try assumption; try reflexivity; try congruence; try exact I; arith.
-Qed.
-
-Lemma pres_joined c s l s' : Inv c s -> step c s l = Some s' -> ge_joined (pc s') = true -> exited s' = c_ncons c.
-Proof.
-  intros I H. pose proof (i_joined _ _ I) as Hc. pose proof (i_consumers _ _ I) as Hn. clear I.
-  start H l; rw_eqs; cbn [ge_joined] in *; intros G; try discriminate; try (specialize (Hc G)); try assumption; try lia.
-  all: try (apply andb_prop in Heqb as [_ ?]); try (apply Nat.eqb_eq; assumption).
-Qed.
-
-(* once the consumers are joined nobody holds a request outside the batcher *)
-Lemma joined_quiet c s : Inv c s -> ge_joined (pc s) = true ->
-  idle s = 0 /\ holding s = [] /\ cflush s = [] /\ sumf wcons (works s) = 0.
-Proof.
-  intros I G. pose proof (i_joined _ _ I G). pose proof (i_consumers _ _ I).
-  repeat split; try apply len0; lia.
-Qed.
-
-Lemma pres_flushwait c s l s' : Inv c s -> step c s l = Some s' -> ge_flushwait (pc s') = true -> current s' = [].
-Proof.
-  intros I H. pose proof (i_flushwait _ _ I) as Hc.
-  assert (Hq : ge_joined (pc s) = true -> holding s = []) by (intros G; apply (joined_quiet _ _ I G)). clear I.
-  start H l; rw_eqs; cbn [ge_flushwait ge_joined] in *; intros G; try discriminate; try (specialize (Hc G)); try assumption;
-    try reflexivity.
-  all: try (destruct (pc s); cbn [ge_flushwait ge_joined] in *; try discriminate;
-            rewrite (Hq eq_refl) in *; exfalso; eapply nth_nil; eassumption).
-  all: try (destruct (current s); [reflexivity|discriminate]).
-Qed.
-
-Lemma forallb_cons_sum (l : list work) : forallb w_cons l = true -> sumf wcons l = length l.
-Proof.
-  induction l as [|w l IH]; simpl; auto. intros H. apply andb_prop in H as [H1 H2].
-  unfold wcons at 1. rewrite H1, (IH H2). reflexivity.
-Qed.
-
-Lemma pres_flushjoined c s l s' : Inv c s -> step c s l = Some s' -> ge_flushjoined (pc s') = true ->
-  works s' = [] /\ timer_dead (timer s') = true.
-Proof.
-  intros I H. pose proof (i_flushjoined _ _ I) as Hc.
-  assert (Hq : ge_joined (pc s) = true -> idle s = 0 /\ holding s = [] /\ cflush s = [] /\ sumf wcons (works s) = 0)
-    by (apply (joined_quiet c); assumption). clear I.
-  start H l; rw_eqs; cbn [ge_flushjoined] in *; intros G; try discriminate;
-    try (destruct (Hc G) as [Hw Ht]; rewrite ?Hw, ?Ht in * ); try (exfalso; eapply nth_nil; eassumption);
-    try (split; [assumption|cbn; auto; fail]); try (split; assumption).
-  all: try (destruct (pc s); cbn [ge_flushjoined ge_joined] in *; try discriminate; destruct (Hq eq_refl) as (Hi & Hh & Hf & _);
-            try (rewrite Hi in *; discriminate); try (rewrite Hf in *; exfalso; eapply nth_nil; eassumption)).
-  all: try (rewrite Ht in *; cbn in *; discriminate).
-  all: try (split; reflexivity).
-  - (* LJoinFlushes *)
-    apply andb_prop in Heqb as [Hb1 Hb3]. apply andb_prop in Hb1 as [Hb1 Hb2].
-    destruct (Hq eq_refl) as (_ & _ & _ & Hz). rewrite (forallb_cons_sum _ Hb1) in Hz.
-    split; [apply len0; assumption | assumption].
-Qed.
-
-Lemma pres_late c s l s' : Inv c s -> step c s l = Some s' -> c_persist c = false -> 1 <= exited s' ->
-  forall i, cnt i (queue s') <= cnt i (late s').
-Proof.
-  intros I H P. pose proof (i_late _ _ I P) as Hc. pose proof (i_exited _ _ I) as He. clear I.
-  start H l; intros E ii; rw_eqs; cbn [orb andb negb nonempty] in *; try discriminate;
-    try (specialize (Hc E ii)); try (specialize (He E)); try congruence; try solve [arith].
-  all: try (destruct (queue s); [|discriminate]; unfold cnt; cbn [sumf]; lia).
-  all: try (assert (E1 : 1 <= exited s) by lia; specialize (Hc E1 ii); arith).
-  apply andb_prop in Heqb as [_ Hn]. destruct (queue s); [|discriminate]. unfold cnt; cbn [sumf]; lia.
-Qed.
-
-Lemma pres_prelate c s l s' : Inv c s -> step c s l = Some s' ->
-  forall i, cnt i (accpre s') + cnt i (late s') <= cnt i (accepted s').
-Proof.
-  intros I H i. pose proof (i_prelate _ _ I i) as Hc. pose proof (i_qstop _ _ I) as Hq. clear I.
-  start H l; try assumption.
-  all: destruct (pc s); cbn [is_not ge_qstopped] in *; try discriminate; try congruence; arith.
-Qed.
-
-Lemma pres_postb c s l s' : Inv c s -> step c s l = Some s' -> postb s' = 0.
-Proof.
-  intros I H. pose proof (i_postb _ _ I) as Hc. pose proof (i_flushjoined _ _ I) as Hj. clear I.
-  start H l; try assumption.
-  destruct (pc s); cbn [after_inner ge_flushjoined] in *; try discriminate;
-    destruct (Hj eq_refl) as [Hw _]; rewrite Hw in *; exfalso; eapply nth_nil; eassumption.
-Qed.
-
-Lemma pres_refs c s l s' : Inv c s -> step c s l = Some s' -> c_persist c = true ->
-  refs s' = (if qstop s' then 0 else 1) + inflight_len s'.
-Proof.
-  intros I H P. pose proof (i_refs _ _ I P) as Hc. pose proof (i_qstop _ _ I) as Hq. clear I.
-  start H l; rw_eqs; cbn [andb orb ge_qstopped] in *; try discriminate; try congruence; arith.
-Qed.
-
-Lemma pres_closed c s l s' : Inv c s -> step c s l = Some s' -> closed s' = (c_persist c && Nat.eqb (refs s') 0).
-Proof.
-  intros I H. pose proof (i_closed _ _ I) as Hc. pose proof (i_refs _ _ I) as Hr. pose proof (i_qstop _ _ I) as Hq. clear I.
-  start H l; rw_eqs; cbn [andb orb ge_qstopped] in *; try discriminate; try assumption; try (specialize (Hr eq_refl)).
-  all: try (destruct (Nat.eqb (refs s) 0) eqn:E; [apply Nat.eqb_eq in E|apply Nat.eqb_neq in E]).
-  all: cbn [andb orb] in *; rw_eqs; cbn [andb orb] in *; try reflexivity; try assumption; try lia.
-  all: try (rewrite E; reflexivity).
-  all: rewrite Heqb in E; lia.
-Qed.
-
-Lemma mem_in i l : mem i l = true <-> In i l.
-Proof.
-  unfold mem. rewrite existsb_exists. split.
-  - intros (x & Hx & E). apply Nat.eqb_eq in E. subst. assumption.
-  - intros H. exists i. split; [assumption|apply Nat.eqb_refl].
-Qed.
-
-Lemma pres_store c s l s' : Inv c s -> step c s l = Some s' -> c_persist c = true ->
-  forall i, 1 <= cnt i (accepted s') ->
-  In i (store s') \/ exists r, In (i, r) (finished s') /\ r <> RShutdown.
-Proof.
-  intros I H P. pose proof (i_store _ _ I P) as Hc. clear I.
-  start H l; intros ii A; try (apply Hc; assumption); try congruence.
-  - (* LOffer *) unfold cnt in A. cbn [sumf] in A. unfold one at 1 in A.
-    destruct (Nat.eqb i ii) eqn:E.
-    + apply Nat.eqb_eq in E. subst. left. left. reflexivity.
-    + destruct (Hc ii) as [Hs|Hf]; [unfold cnt; lia | left; right; assumption | right; assumption].
-  - unfold cnt in A. cbn [sumf] in A. unfold one at 1 in A.
-    destruct (Nat.eqb i ii) eqn:E.
-    + apply Nat.eqb_eq in E. subst. left. left. reflexivity.
-    + destruct (Hc ii) as [Hs|Hf]; [unfold cnt; lia | left; right; assumption | right; assumption].
-  - unfold cnt in A. cbn [sumf] in A. unfold one at 1 in A.
-    destruct (Nat.eqb i ii) eqn:E.
-    + apply Nat.eqb_eq in E. subst. left. left. reflexivity.
-    + destruct (Hc ii) as [Hs|Hf]; [unfold cnt; lia | left; right; assumption | right; assumption].
-  - unfold cnt in A. cbn [sumf] in A. unfold one at 1 in A.
-    destruct (Nat.eqb i ii) eqn:E.
-    + apply Nat.eqb_eq in E. subst. left. left. reflexivity.
-    + destruct (Hc ii) as [Hs|Hf]; [unfold cnt; lia | left; right; assumption | right; assumption].
-  - (* LDone, by a consumer, shutdown error *)
-    destruct (Hc ii A) as [Hs|(r0 & Hf & Hr)]; [left; assumption | right; exists r0; split; [apply in_or_app; right; assumption|assumption]].
-  - destruct (Hc ii A) as [Hs|(r0 & Hf & Hr)].
-    + destruct (mem ii (w_ids w)) eqn:M.
-      * right. exists r. split; [apply in_or_app; left; apply in_map_iff; exists ii; split; [reflexivity|apply mem_in; assumption] | destruct r; cbn in *; congruence].
-      * left. apply filter_In. split; [assumption|rewrite M; reflexivity].
-    + right; exists r0; split; [apply in_or_app; right; assumption|assumption].
-  - destruct (Hc ii A) as [Hs|(r0 & Hf & Hr)]; [left; assumption | right; exists r0; split; [apply in_or_app; right; assumption|assumption]].
-  - destruct (Hc ii A) as [Hs|(r0 & Hf & Hr)].
-    + destruct (mem ii (w_ids w)) eqn:M.
-      * right. exists r. split; [apply in_or_app; left; apply in_map_iff; exists ii; split; [reflexivity|apply mem_in; assumption] | destruct r; cbn in *; congruence].
-      * left. apply filter_In. split; [assumption|rewrite M; reflexivity].
-    + right; exists r0; split; [apply in_or_app; right; assumption|assumption].
-Qed.
-
-(* ---- the invariant holds in every reachable state ---------------------------------------------- *)
-Lemma step_inv c s l s' : Inv c s -> step c s l = Some s' -> Inv c s'.
-Proof.
-  intros I H. constructor.
-  - exact (pres_cons _ _ _ _ I H).
-  - exact (pres_nodup _ _ _ _ I H).
-  - exact (pres_taken _ _ _ _ I H).
-  - exact (pres_begun_ge _ _ _ _ I H).
-  - exact (pres_begun_eq _ _ _ _ I H).
-  - exact (pres_noback _ _ _ _ I H).
-  - exact (pres_failed_nil _ _ _ _ I H).
-  - exact (pres_begun_eq1 _ _ _ _ I H).
-  - exact (pres_noback1 _ _ _ _ I H).
-  - exact (pres_ended _ _ _ _ I H).
-  - exact (pres_consumers _ _ _ _ I H).
-  - exact (pres_workers _ _ _ _ I H).
-  - exact (pres_nobatch _ _ _ _ I H).
-  - exact (pres_joined _ _ _ _ I H).
-  - exact (pres_flushwait _ _ _ _ I H).
-  - exact (pres_bclosed _ _ _ _ I H).
-  - exact (pres_flushjoined _ _ _ _ I H).
-  - exact (pres_qstop _ _ _ _ I H).
-  - exact (pres_exited _ _ _ _ I H).
-  - exact (pres_late _ _ _ _ I H).
-  - exact (pres_prelate _ _ _ _ I H).
-  - exact (pres_postb _ _ _ _ I H).
-  - exact (pres_store _ _ _ _ I H).
-  - exact (pres_refs _ _ _ _ I H).
-  - exact (pres_closed _ _ _ _ I H).
-Qed.
-
-Lemma init_inv c : Inv c (init c).
-Proof.
-  constructor; unfold init, inflight, inflight_len, tmb, pcb, cnt; cbn; intros; try lia; try reflexivity; try discriminate.
-  all: try (match goal with Hb : c_batch _ = false |- _ => rewrite Hb end; cbn; repeat split; reflexivity).
-  all: try (match goal with |- context[c_batch ?c && c_timer ?c] => destruct (c_batch c && c_timer c) end; cbn; try lia; try reflexivity; try discriminate; repeat split; try reflexivity; fail).
-  all: try (match goal with |- context[c_persist ?c] => destruct (c_persist c) end; reflexivity).
-Qed.
-
-Lemma run_inv c : forall ls s s', Inv c s -> run c s ls = Some s' -> Inv c s'.
-Proof.
-  induction ls as [|l ls IH]; intros s s' I H; simpl in H.
-  - injection H as <-. assumption.
-  - destruct (step c s l) eqn:E; [|discriminate]. eapply IH; [eapply step_inv; eassumption | eassumption].
-Qed.
-
-Lemma reachable_inv c s : reachable c s -> Inv c s.
-Proof. intros [ls H]. eapply run_inv; [apply init_inv | eassumption]. Qed.
